@@ -74,6 +74,11 @@ type Session struct {
 	Abandoned bool
 	FirstTx   map[string]*txRec
 	OtherQ2   map[uint16]bool // ids of untracked QoS 2 deliveries this session answered with PUBREC
+	// StaleDeferred: messages settled (by the model's reckoning) on a session that has had messages held back by Receive
+	// Maximum: the recorded deferred-release defect leaves store records behind, and leaks quota so that the broker may
+	// have held back later messages too
+	StaleDeferred map[string]bool
+	LastRecvMax   uint16 // Receive Maximum of the connection that ended last
 }
 
 type Expect struct {
